@@ -200,8 +200,8 @@ def gen_events(planet, fn, variant, seed, n, window=None, stride=1):
         if key in seen:
             continue
         seen.add(key)
-        if window is not None and len(seen) % stride:
-            continue
+        if window is not None and stride > 1 and int(round(rj / P)) % stride:
+            continue          # (the judged subset is a function of the event, not of the window: every tier judges the same ones)
         ts = [rj - 2 * tol, rj - tol, rj, rj + tol, rj + 2 * tol]
         aux = 0.0
         slope = None
